@@ -72,6 +72,11 @@ type Cfg struct {
 	XH       int    `json:"xh"`       //
 	Ulp      int    `json:"ulp"`      // underline position, quarter units
 	Ult      int    `json:"ult"`      // underline thickness, quarter units
+	CInstr   string `json:"cinstr"`   // ttf: instructions of composite glyphs: "off", "nil", "empty", "some", "odd"
+	CffIdx   string `json:"cffidx"`   // cff/cid: INDEX tuned to an exact data length: "off", "name", "string", "charstrings"
+	IdxLen   int    `json:"idxlen"`   // that length
+	Big      string `json:"big"`      // a table larger than 1024 bytes: "off", "gdef", "scripts", "features", "lookups", "name"
+	Group    string `json:"group"`    // generation group (informative)
 	Vary     string `json:"vary"`     // "onefactor" generation: the field taken through its domain (informative)
 	Perm     int    `json:"perm"`     //
 }
@@ -418,6 +423,7 @@ func Build(c Cfg, id int) *sfnt.Font {
 		f.CMapTable = multiCmap(total)
 	}
 	if out, ok := f.Outlines.(*glyf.Outlines); ok {
+		compositeInstr(rng, out, n, c.CInstr)
 		padGlyf(rng, out, c.GlyfSize)
 		rawTables(out, c.RawTabs)
 	}
@@ -472,6 +478,15 @@ func Build(c Cfg, id int) *sfnt.Font {
 	f.Gsub = makeGsub(c, total)
 	f.Gpos = makeGpos(c, total)
 	f.Gdef = makeGdef(c, total)
+	bigLayout(c, f.Gsub, total, true)
+	bigLayout(c, f.Gpos, total, false)
+	switch c.Big {
+	case "gdef":
+		f.Gdef = bigGdef(total)
+	case "name":
+		bigNames(f)
+	}
+	tuneCFF(f, c.CffIdx, c.IdxLen)
 	return f
 }
 
